@@ -179,7 +179,8 @@ func (h *H) waitPark(actor, gate string) error {
 type mergeOp struct{ moss.MergeOperatorStringAppend }
 
 // FullMerge: existing ++ ":" ++ operand, except that operand "!" gives nil
-// (the model's fm_append).
+// and operand "=" keeps a non-nil existing value unchanged and uncopied (the
+// model's fm_append).
 func (mo *mergeOp) FullMerge(key, existing []byte, operands [][]byte) ([]byte, bool) {
 	cur := existing
 	isNil := existing == nil
@@ -188,6 +189,9 @@ func (mo *mergeOp) FullMerge(key, existing []byte, operands [][]byte) ([]byte, b
 			cur = nil
 			isNil = true
 			continue
+		}
+		if len(o) == 1 && o[0] == '=' && !isNil {
+			continue // keep the existing value: the very slice we were given is returned
 		}
 		n := make([]byte, 0, len(cur)+1+len(o))
 		n = append(n, cur...)
